@@ -1,7 +1,10 @@
 """SteppedQueueListener: logging's QueueListener without its thread.
 
-The simulator decides when the consumer processes queued records (`pump`); `stop()` drains
-exactly what a real `stop()` (sentinel + join) would have processed.
+The simulator decides when the consumer processes queued records (`pump`).  The object in
+`_thread` behaves like the consumer thread as far as callers can tell: `join()` lets the
+consumer run to the sentinel, `join(timeout)` lets it run for `timeout` seconds at the
+consumer's configured speed, a handler that raises kills it (records queued or logged
+afterwards are never written), exactly like `QueueListener._monitor`.
 """
 
 from __future__ import annotations
@@ -16,9 +19,11 @@ class Pumps:
 
     def __init__(self) -> None:
         self.listeners: list["SteppedQueueListener"] = []
-        self.mode = "eager"  # eager | manual
         self.handled = 0
         self.drained_at_stop = 0
+        self.died: list[str] = []
+        # records per second the consumer manages (None = keeps up with anything, 0 = stalled)
+        self.rate: float | None = None
 
     def make_class(self) -> type:
         pumps = self
@@ -38,15 +43,39 @@ class Pumps:
         return sum(lst.queue.qsize() for lst in self.listeners if lst._thread is not None)
 
 
+class _ConsumerThread:
+    """Stand-in for the threading.Thread of QueueListener."""
+
+    def __init__(self, listener: "SteppedQueueListener") -> None:
+        self.listener = listener
+        self.name = "SteppedQueueListener"
+        self.daemon = True
+
+    def is_alive(self) -> bool:
+        return not self.listener.exited and self.listener.dead is None
+
+    def join(self, timeout: float | None = None) -> None:
+        lst = self.listener
+        if timeout is None:
+            n = lst.pump(None)
+        else:
+            rate = lst._pumps.rate
+            budget = None if rate is None else int(rate * timeout)
+            n = lst.pump(budget)
+        lst._pumps.drained_at_stop += n
+
+
 class SteppedQueueListener(QueueListener):
     _pumps: Pumps
+    dead: BaseException | None = None
+    exited = False
 
     def start(self) -> None:
-        self._thread = object()  # type: ignore[assignment]
+        self._thread = _ConsumerThread(self)  # type: ignore[assignment]
         self._pumps.listeners.append(self)
 
     def pump(self, n: int | None = None) -> int:
-        if self._thread is None:
+        if self._thread is None or self.dead is not None or self.exited:
             return 0
         done = 0
         while n is None or done < n:
@@ -54,19 +83,27 @@ class SteppedQueueListener(QueueListener):
                 record = self.dequeue(False)
             except queue.Empty:
                 break
-            self.handle(record)
+            if record is self._sentinel:
+                self.exited = True
+                break
+            try:
+                self.handle(record)
+            except Exception as e:  # noqa: BLE001
+                # QueueListener._monitor has no handler around handle(): the consumer thread dies here,
+                # everything still queued (and everything logged later) is never written
+                self.dead = e
+                self._pumps.died.append(repr(e))
+                break
             done += 1
         self._pumps.handled += done
         return done
 
     def stop(self) -> None:
+        # same steps as QueueListener.stop(): sentinel, join, forget the thread
         if self._thread is None:
             return
-        n = self.pump(None)
-        self._pumps.drained_at_stop += n
+        self.enqueue_sentinel()
+        self._thread.join()
         self._thread = None
         if self in self._pumps.listeners:
             self._pumps.listeners.remove(self)
-
-    def enqueue_sentinel(self) -> None:  # pragma: no cover - not used without a thread
-        pass
